@@ -192,3 +192,13 @@ From CA Require Import Proofs.MatcherKindP.
 Theorem C08_static_matches_kinded_parsed : forall t defs indexed ns,
   parse_defs t = Some defs -> matches_kinded indexed defs ns.
 Proof. exact parsed_matches_kinded. Qed.
+
+(* a call can only be statically known if it calls one of the listed built-in functions (table obligation, compared with
+   the source on every run: get_statically_known_value_builtin_fn / get_statically_known_builtin_fn); in particular a
+   call of a user-defined function never is *)
+Theorem C08_static_call_only_listed : forall L G f args, expr_known L G (ECall f args) = true ->
+  exists n, f = EVar 0%N [n] /\ known_value_builtin n || known_asm_builtin n = true.
+Proof. exact call_known_only_listed. Qed.
+Theorem C08_static_listed_functions : forall n, known_value_builtin n || known_asm_builtin n = true ->
+  In n [s_sizeof; s_le; s_ascii; s_utf8; s_utf16be; s_utf16le; s_utf32be; s_utf32le; s_strlen; s_incbin; s_incbinstr; s_inchexstr].
+Proof. exact listed_functions. Qed.
